@@ -32,6 +32,8 @@ ASSUMPTIONS = [
 # "cb": a push-type input (CallbackInput) attached directly that only NOTES notifications and fetches later (lazily);
 # "cbpull" / "cbnext" / "cblinear": a push-type input (direct / behind NextTime / LinearTime) that pulls the announced
 # time while it is being notified
+# "sdelay": consumers behind ONE shared DelayFixed (a pass-through adapter that shifts the request): every consumer's
+# request must reach the output (shifted), or its history is never released
 KINDS = ["direct", "scale", "next", "linear", "avg", "shared", "dlinear", "cb", "cbpull", "cbnext", "cblinear"]
 CB_PULLING = ("cbpull", "cbnext", "cblinear")
 GAPS = [1, 2, 3, 5, 7, 1000, 999999, 1000000, 3600 * 10**6, 86400 * 10**6, 86400 * 10**6 + 1]
@@ -40,7 +42,11 @@ GAPS = [1, 2, 3, 5, 7, 1000, 999999, 1000000, 3600 * 10**6, 86400 * 10**6, 86400
 def _gen_case(rng, malformed):
     nc = rng.choice([1, 1, 2, 2, 2, 3, 3, 4])
     consumers = [rng.choice(KINDS if rng.random() < 0.5 else ["direct", "scale"]) for _ in range(nc)]
-    if nc >= 2 and rng.random() < 0.25:
+    if nc >= 2 and rng.random() < 0.12:
+        consumers = ["sdelay"] * nc
+        if rng.random() < 0.3:
+            consumers[rng.randrange(nc)] = "direct"
+    elif nc >= 2 and rng.random() < 0.25:
         # all (or all but one) consumers behind one shared pass-through adapter
         consumers = ["shared"] * nc
         if rng.random() < 0.4:
@@ -49,10 +55,10 @@ def _gen_case(rng, malformed):
     nops = rng.randint(4, 40)
     ops = []
     t = rng.choice([0, 0, 5, 86400 * 10**6])
-    if "dlinear" in consumers:
+    if "dlinear" in consumers or "sdelay" in consumers:
         # the delayed adapter clamps to the link's info time (0): the first publication must be there
         if malformed:
-            consumers = [("linear" if k == "dlinear" else k) for k in consumers]
+            consumers = [("linear" if k == "dlinear" else "shared" if k == "sdelay" else k) for k in consumers]
         else:
             t = 0
     pubs = []
@@ -103,17 +109,17 @@ def _gen_case(rng, malformed):
                     r2 = rng.randint(r, nxt[0] - 1)
                     ops.append(["pull", k, r2])
                     r = r2
-            if consumers[k] == "shared" and rng.random() < 0.5:
+            if consumers[k] in ("shared", "sdelay") and rng.random() < 0.5:
                 # the siblings behind the shared adapter ask for the very same time one after the other
                 for k2 in range(nc):
-                    if k2 != k and consumers[k2] == "shared" and (last_req[k2] is None or last_req[k2] <= r):
+                    if k2 != k and consumers[k2] == consumers[k] and (last_req[k2] is None or last_req[k2] <= r):
                         ops.append(["pull", k2, r])
                         if pubs[0] <= r <= pubs[-1]:
                             last_req[k2] = r
             if pubs[0] <= r <= pubs[-1]:
                 last_req[k] = r if last_req[k] is None else (r if malformed else max(r, last_req[k]))
     case = {"consumers": consumers, "ops": ops}
-    if "dlinear" in consumers:
+    if "dlinear" in consumers or "sdelay" in consumers:
         case["delay"] = rng.choice(gaps) * rng.choice([1, 2, 3])
     return case
 
@@ -137,6 +143,9 @@ CORPUS = [
     {"consumers": ["next", "linear"],
      "ops": [["push", 0], ["push", 3], ["pull", 0, 1], ["pull", 1, 1], ["pull", 0, 2], ["pull", 1, 2], ["pull", 0, 3], ["push", 6],
              ["pull", 0, 4], ["pull", 0, 5], ["pull", 1, 5], ["pull", 0, 6]]},
+    # lock-step consumers behind one shared DelayFixed: the requests of BOTH must reach the output
+    {"consumers": ["sdelay", "sdelay"], "delay": 2,
+     "ops": [x for d in range(0, 10) for x in (["push", d], ["pull", 0, d], ["pull", 1, d])]},
     # a lazy push-type input next to an eager consumer: what it has not fetched yet must be kept
     {"consumers": ["cb", "direct"],
      "ops": [["push", 0], ["push", 2], ["pull", 1, 2], ["push", 4], ["pull", 1, 4], ["pull", 0, 0], ["pull", 0, 2], ["pull", 0, 4]]},
@@ -183,9 +192,13 @@ def run_impl(case):
         if kind in ("direct", "cb", "cbpull"):
             out >> inp
             ada = None
-        elif kind == "shared":
+        elif kind in ("shared", "sdelay"):
             if shared is None:
-                shared = fm.adapters.Scale(1.0)
+                if kind == "sdelay":
+                    from datetime import timedelta as _td
+                    shared = fm.adapters.DelayFixed(_td(microseconds=case.get("delay", 3)))
+                else:
+                    shared = fm.adapters.Scale(1.0)
                 out >> shared
             shared >> inp
             ada = shared
@@ -343,7 +356,8 @@ def _user_level_bound(case, obs):
     nk = obs["nkeys"]
     if nk != len(case["consumers"]) or "marks" not in obs:
         return None
-    direct = [k in ("direct", "scale", "shared", "cb") for k in case["consumers"]]
+    direct = [k in ("direct", "scale", "shared", "cb", "sdelay") for k in case["consumers"]]
+    shift = [case.get("delay", 3) if k == "sdelay" else 0 for k in case["consumers"]]
     last = {}
     pubs = []
     ev = obs["events"]
@@ -356,9 +370,9 @@ def _user_level_bound(case, obs):
                 last[e[1]] = e[2]
         seen = nev
         if op[0] == "pull" and res == "ok" and direct[op[1]]:
-            if op[1] in last and op[2] < last[op[1]]:
+            if op[1] in last and max(0, op[2] - shift[op[1]]) < last[op[1]]:
                 return None  # outside the domain (decreasing requests)
-            last[op[1]] = op[2]
+            last[op[1]] = max(0, op[2] - shift[op[1]])   # the time that must have reached the output
             if len(last) == nk and pubs:
                 m = min(last.values())
                 bound = 1 + sum(1 for p in pubs if p > m)
@@ -435,4 +449,4 @@ def distribution(cases, obss):
 def shrink_candidates(case):
     ops = case["ops"]
     for i in range(len(ops) - 1, -1, -1):
-        yield {"consumers": case["consumers"], "ops": ops[:i] + ops[i + 1:]}
+        yield dict(case, ops=ops[:i] + ops[i + 1:])
